@@ -507,6 +507,55 @@ theorem C19_extract_keys (cfg : List (String × List EKey)) (cls : String) :
   · intro ks h; simp [selectKeys, h]
   · intro h; simp [selectKeys, h]
 
+/-- A class mapped to the EMPTY list selects nothing — whatever the "default" list says ("count
+    nothing for this class"); a class the setting does not mention, in a setting without "default",
+    selects nothing either.  In both cases the layer contributes 0 to the sum and to its profile total. -/
+theorem C19_extract_empty (cfg : List (String × List EKey)) (cls : String) (e : Entry) :
+    (cfg.lookup cls = some [] → selectKeys cfg cls = [] ∧ layerTotal cfg cls e = 0) ∧
+    (cfg.lookup cls = none → cfg.lookup "default" = none →
+        selectKeys cfg cls = [] ∧ layerTotal cfg cls e = 0) := by
+  constructor
+  · intro h; simp [layerTotal, selectKeys, h]
+  · intro h hd; simp [layerTotal, selectKeys, h, hd]
+
+/-- A setting in which every class of the report is mapped to the empty list extracts 0, for every
+    "default" list. -/
+theorem C19_extract_all_empty (cfg : List (String × List EKey)) (d : List (String × Entry))
+    (h : ∀ r ∈ d, cfg.lookup r.1 = some []) :
+    extractSum cfg d = 0 ∧ ∀ t ∈ extractProfile cfg d, t = 0 := by
+  have hz : ∀ r ∈ d, layerTotal cfg r.1 r.2 = 0 := fun r hr =>
+    ((C19_extract_empty cfg r.1 r.2).1 (h r hr)).2
+  have hp : ∀ t ∈ extractProfile cfg d, t = 0 := by
+    intro t ht
+    simp only [extractProfile, List.mem_map] at ht
+    obtain ⟨r, hr, rfl⟩ := ht
+    exact hz r hr
+  refine ⟨?_, hp⟩
+  rw [(C19_extract cfg d).2, List.sum_eq_zero hp, truncInt_of_nonneg le_rfl]
+  simp
+
+/-- Keys of the setting that name no class of the report (and are not "default") are irrelevant:
+    adding such a key changes neither the selected keys of any layer nor the sum nor the profile. -/
+theorem C19_extract_absent_class (cfg : List (String × List EKey)) (d : List (String × Entry))
+    (c : String) (ks : List EKey) (hc : ∀ r ∈ d, r.1 ≠ c) (hdef : c ≠ "default") :
+    extractProfile ((c, ks) :: cfg) d = extractProfile cfg d ∧
+    extractSum ((c, ks) :: cfg) d = extractSum cfg d := by
+  have hk : ∀ r ∈ d, selectKeys ((c, ks) :: cfg) r.1 = selectKeys cfg r.1 := by
+    intro r hr
+    have h1 : (r.1 == c) = false := by simpa using hc r hr
+    have h2 : (("default" : String) == c) = false := by simpa using fun h => hdef h.symm
+    simp [selectKeys, List.lookup_cons, h1, h2]
+  have hp : extractProfile ((c, ks) :: cfg) d = extractProfile cfg d := by
+    simp only [extractProfile]
+    apply List.map_congr_left
+    intro r hr
+    simp [layerTotal, hk r hr]
+  exact ⟨hp, by rw [(C19_extract _ d).2, (C19_extract cfg d).2, hp]⟩
+
+example : selectKeys [("QActivation", []), ("default", [.inputs, .opCost])] "QActivation" = [] ∧
+    selectKeys [("QActivation", []), ("default", [.inputs, .opCost])] "QDense" = [.inputs, .opCost] ∧
+    selectKeys [("QActivation", [.outputs])] "QDense" = [] := by decide
+
 /-! ### each entry is the documented function of types, counts, sizes and placement -/
 
 /-- `memory_read_energy` by placement.  Layers fed by the model input ignore the configured
